@@ -29,9 +29,9 @@ Record rpart := {
   r_targets : list lit;          (* prepared_problem.merge_targets *)
   r_all : list fstate;           (* every possible initial state (de-duplicated), original fluents *)
   r_kept : list fstate;          (* the states the implementation kept *)
-  r_CPfull : problem;            (* compilation with the reduction switched off *)
-  r_c0full : fstate;
-  r_cactsfull : list step_id
+  r_full : option (problem * fstate * list step_id)
+                                 (* compilation with the reduction switched off: problem, initial state, actions;
+                                    None when the reduction dropped nothing (the two compilations coincide) *)
 }.
 
 Record kcase := {
@@ -161,8 +161,11 @@ Definition rcode (c : kcase) : N :=
       let KO := ground_fluents (k_P c) in
       let a_all := exists_conformant_plan KO (k_P c) (k_insts c) (r_all r) (k_n c) in
       let a_kept := exists_conformant_plan KO (k_P c) (k_insts c) (r_kept r) (k_n c) in
-      let v_full := classical_verdict (ground_fluents (r_CPfull r)) (r_CPfull r) (r_cactsfull r) (r_c0full r) (k_m c) in
       let v_red := classical_verdict (ground_fluents (k_CP c)) (k_CP c) (k_cacts c) (k_c0 c) (k_m c) in
+      let v_full := match r_full r with
+                    | Some (CPf, c0f, cactsf) => classical_verdict (ground_fluents CPf) CPf cactsf c0f (k_m c)
+                    | None => v_red
+                    end in
       let decided v := ((v =? 0) || (v =? 1))%N in
       (b2n (match model_basis r with Some l => negb (nats_eqb l (r_basis r)) | None => true end) 1
        + b2n (negb (lits_eqb (merge_targets NP) (r_targets r))) 2
